@@ -14,7 +14,7 @@ META = {
         "allowed). Request ids are derived from a frozen clock (all concurrent operations share one id) in one "
         "family of jobs and from a counter in the other."),
     "bounds": ["2 or 3 concurrent operations drawn from get, multiget, walk, bulkwalk, set, second walk", "every interleaving of their exchanges (up to 16 scheduling steps)",
-               "v2c and v3 authPriv (SHA-1 + harness cipher), v3 authNoPriv (MD5)", "one shared client; two clients with different credentials on one scheduler"],
+               "v2c and v3 authPriv (SHA-1 + harness cipher), v3 authNoPriv (MD5)", "one shared client; two clients with different credentials talking to two agents with different engine ids / boots / time on one scheduler"],
     "outside": ["more than 3 concurrent operations", "real sockets / the kernel's scheduler"],
     "stubs": ["sender = trampoline; scheduler = harness", "clock frozen or request ids from a counter", "privacy plug-in = harness stream cipher"],
     "assumptions": ["the agent is stateless apart from SET targets, which are distinct per operation"],
@@ -62,14 +62,18 @@ def make_harness(kinds, names, frozen_ids, nsteps):
             # each operation alone
             alone = []
             for i, name in enumerate(names):
-                w = C.World(kinds[i % len(kinds)], Database(UNIVERSE))
+                wi = i % len(kinds)
+                w = C.World(kinds[wi], Database(UNIVERSE), boots=7 + 5 * wi, clock=(lambda wi=wi: 1000 + 100000 * wi),
+                            agent_engine_id=(C.ENGINE_ID if wi == 0 else b"\x80\x00\x1f\x88\x04engine-%d" % wi))
                 try:
                     alone.append(norm(name, w.run(start(w.client, name, i))))
                 finally:
                     w.close()
             from engine.core import seam
             saved_time = seam(util, "time")
-            worlds = [C.World(k, Database(UNIVERSE), pin_ids=not frozen_ids) for k in kinds]
+            worlds = [C.World(k, Database(UNIVERSE), pin_ids=not frozen_ids, boots=7 + 5 * wi, clock=(lambda wi=wi: 1000 + 100000 * wi),
+                              agent_engine_id=(C.ENGINE_ID if wi == 0 else b"\x80\x00\x1f\x88\x04engine-%d" % wi))
+                      for wi, k in enumerate(kinds)]
             if frozen_ids:
                 util.time = lambda: 1700000000.0
             try:
